@@ -1,22 +1,22 @@
 SPECIFICATION Spec
 CONSTANTS
-  Streams = {1, 3}
+  Streams = {1}
   W0 = 3
   C0 = 4
   MF0 = 2
   DataSizes = {0, 1, 3}
-  PadSizes = {0, 1}
+  PadSizes = {0}
   Incs = {1, 3}
-  InitWins = {1, 5}
-  MaxFrames = {1, 3}
+  InitWins = {1}
+  MaxFrames = {3}
   MaxSend = 2
   MaxCtl = 2
   OutCap = 4
-  Eager = TRUE
+  Eager = FALSE
   MaxCtlQ = 1
-  RstCodes = {8, 2}
+  RstCodes = {8}
   Promised = {2}
-  Pings = {1}
+  Pings = {}
   BugContES = FALSE
   BugPadCredit = FALSE
   EncodeAtEnqueue = FALSE
@@ -24,8 +24,8 @@ CONSTANTS
   SplitOnlyAtEnqueue = FALSE
   DropOnClose = FALSE
   WriteErrorEndsReader = FALSE
-  AckOvertakes = FALSE
-  ForwardInitWin = TRUE
-  WithSettings = TRUE
-INVARIANTS NotStarved
+  AckOvertakes = TRUE
+  ForwardInitWin = FALSE
+  WithSettings = FALSE
+INVARIANTS WithinGrantAsReceiverCountsIt
 CHECK_DEADLOCK FALSE
